@@ -213,9 +213,8 @@ func (msg *MessageTransport) FromBytes(src []byte) error {
 	if err := binary.Read(buf, MessageBytesOrder, &msg.Counter); err != nil {
 		return err
 	}
-	if buf.Len() > 0 {
-		msg.Content = append(msg.Content, buf.Bytes()...)
-	}
+	// what msg held before is replaced, not added to
+	msg.Content = append([]uint8(nil), buf.Bytes()...)
 	return nil
 }
 
